@@ -21,6 +21,7 @@ import (
 	crypto "com.tuntun.rangers/node/src/eth_crypto"
 	"com.tuntun.rangers/node/src/middleware/db"
 	"com.tuntun.rangers/node/src/middleware/types"
+	"com.tuntun.rangers/node/src/service"
 	"com.tuntun.rangers/node/src/storage/account"
 	"com.tuntun.rangers/node/src/utility"
 	"com.tuntun.rangers/node/src/vm"
@@ -33,8 +34,9 @@ type sTx struct {
 	Type     int32    `json:"type"` // 200 contract call, 188 wrapped ETH transaction
 	Disp     int      `json:"disp"` // dispatcher contract 0/1 (transient storage is per contract)
 	Ops      []Item   `json:"ops"`
-	Fail     bool     `json:"fail,omitempty"`      // the script reverts at its end
-	AddSlots []uint64 `json:"add_slots,omitempty"` // slots the harness warms through the StateDB interface during the tx
+	Node     bool     `json:"operator_node,omitempty"` // TransactionTypeOperatorNode: its executor calls the main-node contract (dispatcher 2) itself
+	Fail     bool     `json:"fail,omitempty"`          // the script reverts at its end
+	AddSlots []uint64 `json:"add_slots,omitempty"`     // slots the harness warms through the StateDB interface during the tx
 }
 
 type sCase struct {
@@ -44,13 +46,26 @@ type sCase struct {
 	Txs    []sTx  `json:"txs"`
 }
 
-func dispAddr(i int) common.Address   { return patAddr(0x04, i) }
+const nDisp = 3
+
+// dispatcher 2 lives at common.MainNodeContract(): the contract the OperatorNode executor runs through the EVM.
+func dispAddr(i int) common.Address {
+	if i == 2 {
+		return common.MainNodeContract()
+	}
+	return patAddr(0x04, i)
+}
+
+var nodeSelector = []byte{0x41, 0x2a, 0x5a, 0x6d}
+
 func scriptAddr(i int) common.Address { return patAddr(0x04, 16+i) }
 
 // dispatcher: mem[0..128) = TLOAD(0..3); DELEGATECALL the script named by
 // calldata word 0; success -> RETURN(0,128), failure -> REVERT(0,128).
 func dispatcherCode() []byte {
 	a := &Asm{}
+	lNode := a.NewLabel()
+	a.Op(opCALLDATASIZE, opPUSH1, 4, opEQ).PushLabel(lNode).Op(opJUMPI)
 	for k := 0; k < nTSlots; k++ {
 		a.Push(uint64(k)).Op(opTLOAD).Push(uint64(32 * k)).Op(opMSTORE)
 	}
@@ -60,6 +75,15 @@ func dispatcherCode() []byte {
 	a.PushLabel(ok).Op(opJUMPI)
 	a.Op(opPUSH1, 128, opPUSH1, 0, opREVERT)
 	a.Mark(ok).Op(opPUSH1, 128, opPUSH1, 0, opRETURN)
+	// main-node routine (4-byte selector): three logs carrying TLOAD(0..2), leave transient storage and a
+	// warmed address behind, fourth log carries the origin (the executor reads the miner account from it)
+	a.Mark(lNode)
+	for k := 0; k < 3; k++ {
+		a.Push(uint64(k)).Op(opTLOAD, opPUSH1, 0, opMSTORE, opPUSH1, 32, opPUSH1, 0, opLOG0)
+	}
+	a.Op(opPUSH1, 0x5e, opPUSH1, 1, opTSTORE)
+	a.Op(opPUSH1, 0, opPUSH1, 0, opPUSH1, 0, opCREATE, opPOP)
+	a.Op(opORIGIN, opPUSH1, 0, opMSTORE, opPUSH1, 32, opPUSH1, 0, opLOG0, opSTOP)
 	return a.Bytes()
 }
 
@@ -104,7 +128,7 @@ func (o *scratchObs) empty() bool {
 
 func scratchUniverse(n int) []common.Address {
 	var u []common.Address
-	for d := 0; d < 2; d++ {
+	for d := 0; d < nDisp; d++ {
 		u = append(u, dispAddr(d))
 		for k := uint64(0); k < 10; k++ {
 			u = append(u, crypto.CreateAddress(dispAddr(d), k))
@@ -121,7 +145,7 @@ func scratchUniverse(n int) []common.Address {
 
 func observeScratch(adb *account.AccountDB, uni []common.Address, txHash common.Hash) scratchObs {
 	var o scratchObs
-	for d := 0; d < 2; d++ {
+	for d := 0; d < nDisp; d++ {
 		for k := 0; k < nTSlots; k++ {
 			if v := adb.GetTransientState(dispAddr(d), h32(uint64(k))); v != (common.Hash{}) {
 				o.Transient = append(o.Transient, fmt.Sprintf("dispatcher%d[%d]=%s", d, k, strings.TrimLeft(hex.EncodeToString(v[:]), "0")))
@@ -164,6 +188,19 @@ func callWord(a common.Address) []byte {
 	return w
 }
 
+// tagOfLog: logs of the main-node routine are recognised by emitter and untagged data.
+func tagOfLog(l *types.Log) string {
+	t := tagOfLogData(l.Data)
+	if strings.HasPrefix(t, "data=") && l.Address == common.MainNodeContract() && len(l.Data) == 32 {
+		return "node:" + strings.TrimLeft(hex.EncodeToString(l.Data), "0")
+	}
+	return t
+}
+
+func nodeTags() []string {
+	return []string{"node:", "node:", "node:", "node:" + strings.TrimLeft(hex.EncodeToString(originAddr[:]), "0")}
+}
+
 func tagOfLogData(d []byte) string {
 	if len(d) != 32 {
 		return fmt.Sprintf("data=%x", d)
@@ -184,14 +221,26 @@ func runScratch(c *sCase) *scratchRun {
 	}
 	adb.SetBalance(originAddr, new(big.Int).Lsh(big.NewInt(1), 100))
 	dc := dispatcherCode()
-	for d := 0; d < 2; d++ {
+	for d := 0; d < nDisp; d++ {
 		adb.SetCode(dispAddr(d), dc)
 		adb.SetBalance(dispAddr(d), big.NewInt(1000000))
 		adb.SetState(dispAddr(d), h32(0), h32(0x11))
 		adb.SetState(dispAddr(d), h32(1), h32(0x22))
 	}
 	run := &scratchRun{Tx: make([]scratchTxResult, len(c.Txs))}
+	for _, t := range c.Txs {
+		if t.Node { // the OperatorNode executor wants a miner bound to the source
+			m := &types.Miner{Id: minerIDFor(originAddr), PublicKey: []byte{1}, VrfPublicKey: []byte{2}, ApplyHeight: 1,
+				Status: common.MinerStatusNormal, Type: common.MinerTypeValidator, Stake: 1000, Account: originAddr.Bytes()}
+			service.MinerManagerImpl.UpdateMiner(m, adb, true)
+			break
+		}
+	}
 	for i, t := range c.Txs {
+		if t.Node {
+			run.Expected = append(run.Expected, 4)
+			continue
+		}
 		n, logs := scriptNode(i, t)
 		comp := &compiled{deploy: map[common.Address][]byte{}, ctxs: map[common.Address]bool{}, miners: map[common.Address]bool{}, noGuards: true}
 		da := dispAddr(t.Disp)
@@ -211,6 +260,9 @@ func runScratch(c *sCase) *scratchRun {
 		cd, _ := json.Marshal(types.ContractData{GasPrice: "1000000000", GasLimit: "200000000", TransferValue: "0", AbiData: common.ToHex(callWord(scriptAddr(i)))})
 		tx := &types.Transaction{Source: originAddr.GetHexString(), Target: dispAddr(t.Disp).GetHexString(), Type: t.Type,
 			Data: string(cd), Nonce: uint64(i), Time: fmt.Sprintf("c12-%d", i), ChainId: common.ChainId(blockHeight)}
+		if t.Node {
+			tx.Type, tx.Target, tx.Data = types.TransactionTypeOperatorNode, "", ""
+		}
 		tx.Hash = tx.GenHash()
 		txs[i], hashes[i] = tx, tx.Hash
 	}
@@ -230,7 +282,11 @@ func runScratch(c *sCase) *scratchRun {
 			warm(i)
 			ctx := vmContext(big.NewInt(123), big.NewInt(1000000000), big.NewInt(1700000000))
 			evm := vm.NewEVMWithNFT(ctx, adb, adb)
-			ret, _, retLogs, cerr := evm.Call(vm.AccountRef(originAddr), dispAddr(c.Txs[i].Disp), callWord(scriptAddr(i)), 200000000, new(big.Int))
+			target, input, gas := dispAddr(c.Txs[i].Disp), callWord(scriptAddr(i)), uint64(200000000)
+			if c.Txs[i].Node {
+				target, input, gas = dispAddr(2), nodeSelector, 6000000
+			}
+			ret, _, retLogs, cerr := evm.Call(vm.AccountRef(originAddr), target, input, gas, new(big.Int))
 			res.End = observeScratch(adb, uni, hashes[i])
 			res.OK = cerr == nil
 			if cerr == nil && len(ret) == 32*nTSlots {
@@ -239,8 +295,9 @@ func runScratch(c *sCase) *scratchRun {
 				}
 			}
 			for _, l := range adb.GetLogs(hashes[i]) {
-				checkOwnLog(res, l, i, hashes[i], false)
+				checkOwnLog(res, l, i, hashes[i], false, c.Txs[i].Node)
 			}
+			nodeTLoad(res, c.Txs[i].Node)
 			for _, l := range retLogs {
 				res.ResultLogs = append(res.ResultLogs, tagOfLogData(l.Data))
 			}
@@ -282,7 +339,17 @@ func runScratch(c *sCase) *scratchRun {
 		}
 		res.OK = rc.Status == types.ReceiptStatusSuccessful
 		for _, l := range rc.Logs {
-			checkOwnLog(res, l, i, hashes[i], c.Legacy)
+			checkOwnLog(res, l, i, hashes[i], c.Legacy, c.Txs[i].Node)
+		}
+		nodeTLoad(res, c.Txs[i].Node)
+		if !c.Legacy { // the state's log list of this transaction must be what its receipt was given
+			var bucket []string
+			for _, l := range adb.GetLogs(hashes[i]) {
+				bucket = append(bucket, tagOfLog(l))
+			}
+			if !sameStrings(bucket, res.ReceiptLog) {
+				res.ReceiptBad = append(res.ReceiptBad, fmt.Sprintf("after the block GetLogs(hash of this transaction) holds %v", bucket))
+			}
 		}
 		if res.OK {
 			var m struct {
@@ -305,13 +372,26 @@ func runScratch(c *sCase) *scratchRun {
 	return run
 }
 
-func checkOwnLog(res *scratchTxResult, l *types.Log, i int, h common.Hash, legacy bool) {
-	tag := tagOfLogData(l.Data)
+// nodeTLoad: an OperatorNode transaction reports its TLOADs in the data of its first three logs.
+func nodeTLoad(res *scratchTxResult, node bool) {
+	if node && len(res.ReceiptLog) >= 3 {
+		for _, t := range res.ReceiptLog[:3] {
+			res.TLoad = append(res.TLoad, strings.TrimPrefix(t, "node:"))
+		}
+	}
+}
+
+func checkOwnLog(res *scratchTxResult, l *types.Log, i int, h common.Hash, legacy, node bool) {
+	tag := tagOfLog(l)
 	res.ReceiptLog = append(res.ReceiptLog, tag)
 	if l.TxHash != h && !legacy { // before Proposal013 Prepare is not called and logs carry no transaction hash
 		res.ReceiptBad = append(res.ReceiptBad, fmt.Sprintf("%s carries tx hash %x", tag, l.TxHash[:4]))
 	}
-	if !strings.HasPrefix(tag, fmt.Sprintf("tx%d.", i)) {
+	own := fmt.Sprintf("tx%d.", i)
+	if node {
+		own = "node:"
+	}
+	if !strings.HasPrefix(tag, own) {
 		res.ReceiptBad = append(res.ReceiptBad, fmt.Sprintf("%s was emitted by another transaction", tag))
 	}
 }
@@ -379,9 +459,16 @@ func judgeScratchRun(c *sCase, run *scratchRun) []scratchFinding {
 			if res.OK {
 				want = run.Expected[i]
 			}
-			if !sameStrings(res.ReceiptLog, expectedTags(i, want)) {
+			exp := expectedTags(i, want)
+			if c.Txs[i].Node && res.OK {
+				exp = nodeTags()
+				if leak && len(res.ReceiptLog) == 4 { // the leaked TLOAD values are already reported above
+					exp = append(append([]string{}, res.ReceiptLog[:3]...), exp[3])
+				}
+			}
+			if !sameStrings(res.ReceiptLog, exp) {
 				fs = append(fs, scratchFinding{"C12:scratch:receipt-logs-mismatch",
-					fmt.Sprintf("receipt of transaction %d (success=%v) lists logs %v, the transaction emitted %v", i, res.OK, res.ReceiptLog, expectedTags(i, want)), i})
+					fmt.Sprintf("receipt of transaction %d (success=%v) lists logs %v, the transaction emitted %v", i, res.OK, res.ReceiptLog, exp), i})
 			}
 		}
 	}
@@ -462,6 +549,12 @@ func judgeScratch(r *mon.Run, c *sCase, shrinks *int) {
 		}
 		r.Count("scratch_start_observations", 1)
 		r.Count("scratch_tx_"+c.Mode, 1)
+		if c.Txs[i].Node {
+			r.Count("scratch_tx_operator_node_"+c.Mode, 1)
+			if res.OK && left {
+				r.Count("scratch_operator_node_ok_after_dirty_tx", 1)
+			}
+		}
 		if left {
 			nontrivial = true
 			r.Count("scratch_starts_after_dirty_tx", 1)
@@ -546,6 +639,9 @@ func describeScratch(c *sCase) string {
 			}
 		}
 		s := fmt.Sprintf("tx%d@dispatcher%d{%s}", i, t.Disp, strings.Join(ops, ";"))
+		if t.Node {
+			s = fmt.Sprintf("tx%d=OPERATOR_NODE(main-node contract = dispatcher2)", i)
+		}
 		if t.Fail {
 			s += "->REVERT"
 		}
@@ -590,8 +686,16 @@ func genScratch(rng *rand.Rand) *sCase {
 		if rng.Intn(4) == 0 {
 			t.Type = types.TransactionTypeETHTX
 		}
-		if rng.Intn(4) == 0 {
+		switch rng.Intn(10) {
+		case 0, 1:
 			t.Disp = 1
+		case 2, 3, 4:
+			t.Disp = 2
+		}
+		if i > 0 && rng.Intn(5) == 0 { // a non-contract transaction whose executor reaches the EVM
+			t = sTx{Type: types.TransactionTypeOperatorNode, Disp: 2, Node: true}
+			c.Txs = append(c.Txs, t)
+			continue
 		}
 		t.Fail = rng.Intn(6) == 0
 		k := rng.Intn(6)
